@@ -69,6 +69,7 @@ def run(chk):
     rule_admitted_kinds(chk)
     rule_elab_total(chk)
     rule_scope_walk(chk)
+    rule_pipeline_props(chk)
 
 
 def rule_elab_total(chk):
@@ -80,13 +81,63 @@ def rule_elab_total(chk):
     sv = c03.abort_survey(f, chk.tier)
     pe = f.fn("parse_expr_unchecked", "rssl_typer")
     if sv is None:
-        chk.note("C08.elab: the elaboration tables are not readable on this tree; not evaluated")
+        chk.unreadable("C08.elab/readable", "the typer's elaboration functions (see C03.elab / .access / .call / .stmt / .ctor)", "a table is not readable", where(pe) if pe else "typer")
         return
     total = 0
     for fam, (cases, msgs) in sorted(sv.items()):
         total += cases
         chk.ob("C08.elab/" + fam, not msgs, "%d operand combinations: none aborts" % cases if not msgs else msgs[0], where(pe) if pe else "typer", sample={"family": fam, "cases": cases})
     chk.floor("C08.floor/elab-cases", total, 20000, "operand combinations read", where(pe) if pe else "typer")
+
+
+PIPELINE_PROPS = ["BlendState", "BlendState0", "BlendState3", "BlendState7", "BlendState8", "BlendState9", "BlendStateA", "BlendState_", "BlendStatez", "BlendState10", "BlendState/",
+                  "RenderTargetFormat0", "RenderTargetFormat7", "RenderTargetFormat8", "RenderTargetFormatX", "RenderTargetFormat", "RenderTargetFormat00",
+                  "DepthTargetFormat", "CullMode", "WindingOrder", "DefaultBindGroup", "Foo", "", "blendstate0", "VertexShader", "ComputeShader", "MeshShader", "TaskShader"]
+
+
+def rule_pipeline_props(chk):
+    """parse_pipeline read on model pipeline definitions (stage and value parsers scripted): one stage property plus
+    one or two state properties from a table of names - valid ones, names just outside the valid ranges, duplicates -
+    for graphics and compute pipelines. Every definition gives Ok or an error value; none aborts."""
+    import interp as I
+    f = chk.facts
+    pp = f.fn("parse_pipeline", "rssl_typer")
+    if not pp:
+        chk.note("C08.pipeline: parse_pipeline not found; not evaluated")
+        return
+    loc = lambda s_: I.Enum("Located", None, {"node": s_, "location": I.Opaque("loc")})
+    prop = lambda n_: I.Enum("PipelineProperty", None, {"property": loc(n_), "value": I.Opaque("value")})
+
+    def add_stage(a):
+        p_ = a[3].get() if isinstance(a[3], I.Ref) else a[3]
+        p_.fields["stages"].append(I.Enum("PipelineStage", None, {"stage": a[1]}))
+        return I.Enum("Result", "Ok", {"0": ()})
+    okv = lambda v: (lambda a: I.Enum("Result", "Ok", {"0": v}))
+    ext = {"add_stage": add_stage, "parse_blend_state": okv(I.Opaque("blend state")), "extract_string": okv("format"), "extract_uint32": okv(1),
+           "extract_cull_mode": okv(I.Opaque("cull mode")), "extract_winding_order": okv(I.Opaque("winding order"))}
+    bad = None
+    n = n_ok = 0
+    for stage in ("PixelShader", "ComputeShader"):
+        lists = [[p1] for p1 in PIPELINE_PROPS] + [[p1, p2] for p1 in ("BlendState0", "RenderTargetFormat7", "CullMode", "DepthTargetFormat") for p2 in PIPELINE_PROPS]
+        for names in lists:
+            n += 1
+            ip = I.Interp(f, max_depth=8, extern=ext)
+            ip.max_loop = 64
+            d = I.Enum("PipelineDefinition", None, {"name": loc("P"), "properties": [prop(stage)] + [prop(x) for x in names]})
+            ctx = I.Enum("Context", None, {"module": I.Enum("Module", None, {"pipelines": []})})
+            try:
+                r = ip.apply(pp, [d, ctx])
+            except I.Unknown as e:
+                if "panicking" in str(e):
+                    bad = bad or "Pipeline { %s = ..; %s } aborts the type checker (%s)" % (stage, "; ".join("%s = .." % x for x in names), str(e)[:80])
+                    continue
+                chk.unreadable("C08.pipeline/readable", "parse_pipeline", e, where(pp))
+                return
+            if isinstance(r, I.Enum) and r.variant == "Ok":
+                n_ok += 1
+    chk.ob("C08.pipeline/properties", bad is None, "%d pipeline definitions (%d accepted): every property list yields a pipeline or an error value" % (n, n_ok) if bad is None else bad,
+           where(pp), sample={"definitions": n, "accepted": n_ok})
+    chk.floor("C08.floor/pipeline-definitions", n_ok, 20, "accepted model pipeline definitions", where(pp))
 
 
 def rule_scope_walk(chk):
@@ -122,7 +173,7 @@ def rule_scope_walk(chk):
             if "panicking" in str(e):
                 bad = bad or "%s aborts the type checker (%s)" % (what, str(e)[:70])
                 continue
-            chk.note("C08.scopes: walk_into_scopes is not readable (%s)" % str(e)[:80])
+            chk.unreadable("C08.scopes/readable", "walk_into_scopes", e, where(w))
             return
         got = r.fields.get("0") if isinstance(r, I.Enum) and r.variant == "Some" else (None if isinstance(r, I.Enum) and r.variant == "None" else "?")
         if got != want:
